@@ -40,12 +40,43 @@ CFG = dict(
         "c16.holds.bvh / bvh_scan; the BVH itself has no model-vs-impl line (its shape is random), only oracles. "
         "The triangle Hit compares the distance from ray.At(min) with max (rendering/mesh.go:53), so the contract holds for "
         "min = 0 only; the harness uses min = 0 for rendering",
-        "slab test over ℝ uses Lean's x/0 = 0 for axis-parallel rays, where Go relies on ±Inf/NaN: slab_mono is about the "
-        "real-number reading; axis-parallel rays are exercised by correspondence (c16.aabb.ray, grid/planar sets)",
+        "zero direction components: the slab model makes the IEEE outcome of 1/±0 explicit (origin strictly inside the widened slab: range "
+        "unchanged; strictly outside: reject), so slab_mono / slab_sound and every ray theorem cover axis-parallel rays. One corner remains: "
+        "origin EXACTLY on a widened face with a zero component — Go computes 0*Inf = NaN and accepts for +0, rejects for -0; the Float model "
+        "reproduces both bit-for-bit (c16.aabb.ray: both signs of zero, origins exactly on the face), the real-number reading rejects",
+        "a zero-length segment (Go: division by the length 0, NaN closest point) is excluded by hypothesis (prim_closest_in_box, "
+        "octree_closest_eq_scan_of_input) and by the generator (consecutive line-strip vertices are distinct)",
         "TraverseIntersectingRay: the theorem (traverse_visits_all_hits) covers callbacks that leave *min/*max alone — which includes "
         "rendering.Mesh.Hit, whose callback only shortens its own captured max; callbacks that write through the pointers are modelled "
         "(Oct.traverse) but no theorem is stated for them. rendering.Mesh.Hit as a whole is checked by the oracle `octmesh` vs HitList",
         "negative maxDepth (unbounded recursion on coincident elements in Go) is outside the model: depth is a natural number",
     ],
     assumptions=["float64 arithmetic in Go on amd64 is IEEE-754 without FMA contraction"],
+    manifest=dict(
+        text="Lean 4 theorems over ℝ. Geometry facts about the AABB/plane code regenerated from source and the hand-modelled slab test "
+             "(IEEE outcome of a zero direction component made explicit, so axis-parallel rays are covered): closest-point lower bound, "
+             "containment / distance / slab test monotone in the box, slab test sound (ray point inside the box within a non-empty range ⇒ accepted), "
+             "an element's closest point lies in its own box (points, non-degenerate segments, well-formed boxes, non-degenerate triangles — "
+             "triangles by a barycentric argument on the fixed PointInSide). For EVERY tree whose node boxes cover their elements: the pruned "
+             "queries (containing point, within range, ray, traverse with a range-preserving callback) equal the exhaustive scan (same elements, "
+             "same order); best-first ClosestPoint returns a distance minimiser and that element's closest point (ties: any minimiser). "
+             "build_covers: for every element list and every depth incl. 0 and automatic, newOctree (octant assignment, depth cut-off, single-child "
+             "collapse, widening loop) builds a covering tree storing a permutation of the input; hence end-to-end equality with the scan over the "
+             "input. BVH: Hit = HitList.Hit (flag and nearest distance) for every covering tree and any list order; NewBVHTree builds a covering "
+             "tree for every axis choice and sort outcome; nearest hit through the octree = hit list — these for abstract primitives that hit only "
+             "where the slab test accepts their box and report their first hit exactly when within the range. Tie: AABB/plane code regenerated by the "
+             "translator; the Lean model run at Float on the same bits reproduces the real octree's root bounds, visit order of every query answer, "
+             "closest element/distance/point and the slab test exactly (points, line strips, boxes, triangles; depths 0–6 and automatic; queries "
+             "inside, outside, exactly on element vertices; axis-parallel rays incl. origins exactly on the widened face, both signs of zero). "
+             "Oracles: the real octree's answers against an exhaustive scan done by the Go harness through the same trees.Element interfaces "
+             "(both id lists computed in Go, compared by the driver); rendering BVHNode.Hit / Mesh.Hit / Tree.Hit vs HitList.Hit and vs the "
+             "per-primitive scan on triangles and spheres (minDistance = 0).",
+        note="Trusted: Lean kernel + propext/Classical.choice/Quot.sound; translator; harness; hand transcription of octree.go / bvh.go / hit.go / the slab "
+             "helper (tied bit-for-bit). Not proved: floating-point rounding (that the float tree satisfies Covers is observed; closest-element identity "
+             "is compared by distance with relative tolerance 1e-9: ties aside); that rendering.Triangle / Sphere satisfy the primitive contract "
+             "(oracle only; holds for minDistance = 0 only, see residue); the BVH has no model-vs-impl line (random shape). Corner: a ray with a zero "
+             "direction component whose origin lies EXACTLY on a box's ε-widened face is sign-of-zero dependent in Go (NaN); the real-number "
+             "reading rejects it. Excluded by hypothesis: zero-length segments, zero-area triangles, boxes with negative extents, negative depth.",
+        technique="Lean 4 proof (structural induction over covering trees, best-first search invariant, build invariant, barycentric argument) over "
+                  "regenerated geometry + bit-exact Float correspondence of the hand model + exhaustive-scan oracles"),
 )
